@@ -558,6 +558,14 @@ pub fn run(env: &Env) -> i32 {
     cov.insert("simulated_seconds".into(), json!(results.iter().map(|r| r.sim_ns as i128).sum::<i128>() as f64 / 1e9));
     cov.insert("runs_per_hour".into(), json!((evals as f64 / wall * 3600.0) as u64));
     cov.insert("fault_kinds_fired".into(), json!({"hash-key": evals, "clock-fine": evals, "clock-stall": results.iter().map(|r| r.stalls_fired).sum::<usize>()}));
+    crate::report::add_probes(
+        &mut cov,
+        &[
+            ("definition with two or more SSA namings", results.iter().filter(|r| r.fingerprints.len() >= 2).count()),
+            ("phi with three or more arguments", results.iter().filter(|r| r.phi3).count()),
+            ("conversion on a stalling clock", results.iter().map(|r| r.stalls_fired).sum::<usize>()),
+        ],
+    );
     cov.insert("components".into(), json!({"real": ["parser::parse_definition", "into_cfg (lifting, unique_vars)", "into_ssa (phi insertion, renaming, declarations, propagation)"], "simulated": ["getrandom (hash key per run)", "clock_gettime"], "not_run": ["main.rs", "writers", "analysis passes"], "stubbed": []}));
     Evidence {
         property: "C14".into(),
